@@ -36,7 +36,7 @@ ND = ['"one that was actually thrown" under all throw positions', 'timing of bod
 K7_EXCEPTIONS = {
     'enqueue_task::cancel': 'enqueued tasks are not waited for; cancel() is an assert-release "cannot happen" stub',
     'task_proxy::execute': 'assert-release stub', 'task_proxy::cancel': 'assert-release stub',
-    'resume_task::cancel': 'assert-release stub',
+    'resume_task::cancel': 'forwards to execute() (C20-D5 checks that)',
 }
 
 
